@@ -118,13 +118,18 @@ class Harness:
         return bool(b)
 
     def fun(self, name, *args):
-        """application of an uninterpreted real function"""
+        """application of an unknown real function.  Encoded without uninterpreted functions (pure nonlinear real
+        arithmetic is decided by nlsat, UF+NRA is not): one fresh real per syntactically distinct argument tuple.
+        Applications with semantically equal but syntactically different arguments are therefore *not* forced to
+        agree - an over-approximation (may only produce spurious models, which the replay filters out)."""
         if self.sym:
-            f = self.funs.get(name)
-            if f is None:
-                f = z3.Function(name, *([z3.RealSort()] * (len(args) + 1)))
-                self.funs[name] = f
-            return SymReal(f(*[symx.toz(a) for a in args]))
+            zargs = [z3.simplify(symx.toz(a)) for a in args]
+            key = (name, tuple(a.sexpr() for a in zargs))
+            tab = self.funs.setdefault(name, {})
+            if key not in tab:
+                v = z3.Real(f'{name}({", ".join(a.sexpr() for a in zargs)})')
+                tab[key] = (zargs, v)
+            return SymReal(tab[key][1])
         tab = self.env.get('@' + name)
         if tab is None:
             self.missing.append('@' + name)
@@ -232,54 +237,14 @@ def _env_from_model(h, m, path):
             env[name] = False
         else:
             env[name] = symx.model_num(m, v)
-    for name, f in h.funs.items():
-        try:
-            interp = m[f]
-        except Exception:   # noqa: BLE001
-            interp = None
+    for name, tab in h.funs.items():
         pts = []
-        els = fractions.Fraction(1)
-        if interp is not None and not isinstance(interp, z3.ExprRef):
-            for i in range(interp.num_entries()):
-                e = interp.entry(i)
-                try:
-                    pt = [symx.model_num(m, e.arg_value(j)) for j in range(e.num_args())]
-                    pts.append((pt, symx.model_num(m, e.value())))
-                except symx.Unsupported:
-                    pass
+        for key, (zargs, v) in tab.items():
             try:
-                els = symx.model_num(m, interp.else_value())
-            except (symx.Unsupported, z3.Z3Exception, AttributeError):
-                els = fractions.Fraction(1)
-        env['@' + name] = {'points': pts, 'else': els}
-    # applications that occur in the path: evaluate them explicitly (covers lambda-style models)
-    apps = {}
-
-    def walk(t, seen):
-        if t.get_id() in seen:
-            return
-        seen.add(t.get_id())
-        if z3.is_app(t):
-            d = t.decl()
-            if d.kind() == z3.Z3_OP_UNINTERPRETED and t.num_args() > 0 and d.name() in h.funs:
-                apps.setdefault(d.name(), []).append(t)
-            for c in t.children():
-                walk(c, seen)
-    seen = set()
-    for c in list(path.pc) + list(path.defs):
-        walk(c, seen)
-    for cl in h.claims:
-        if isinstance(cl.holds, z3.ExprRef):
-            walk(cl.holds, seen)
-    for name, ts in apps.items():
-        tab = env['@' + name]
-        for t in ts:
-            try:
-                pt = [symx.model_num(m, a) for a in t.children()]
-                val = symx.model_num(m, t)
+                pts.append(([symx.model_num(m, a) for a in zargs], symx.model_num(m, v)))
             except symx.Unsupported:
-                continue
-            tab['points'].insert(0, (pt, val))
+                pass
+        env['@' + name] = {'points': pts, 'else': pts[0][1] if pts else fractions.Fraction(1)}
     return env
 
 
